@@ -359,6 +359,8 @@ def oracle_route(case, out):
     exp_pats = [expected_pattern(l) for l in labels]
     if out["patterns"] != exp_pats:
         return "router patterns %r, expected %r" % (out["patterns"], exp_pats)
+    if out.get("emitted") is False:
+        return "the code generated for domain_router() registers other patterns than %r (what conflict detection checked): hosts that fit a guard would not reach its routes" % (exp_pats,)
     has_host = out["host"] is not None
     if (host != "") != has_host:
         return "Host %r: %s by the generated code" % (host, "accepted" if has_host else "rejected")
